@@ -367,9 +367,16 @@ def schedule_jobs(ctx):
     rng = random.Random(ctx.seed + 17)
     jobs = []
     info = {}
-    # (1) every complete schedule of 2 workers x 3 jobs, for every fail set (PathSet 1), 1-D cache
-    # (quick tier: three fail sets - the schedules themselves do not depend on the fail set)
-    paths, r = tlc_paths('DFECacheMC_paths5.cfg' if ctx.quick else 'DFECacheMC_paths.cfg', workers=4)
+    # (1) every complete schedule of 2 workers x 3 jobs (thorough: for every fail set, PathSet 1; quick: three fail
+    #     sets - the schedules themselves do not depend on the fail set) and (2) of 1-2 workers x 2 jobs, every fail
+    #     set (includes the one-worker pool).  Quick enumerates both families in one TLC run (PathSet 7).
+    if ctx.quick:
+        allp, r = tlc_paths('DFECacheMC_paths7.cfg', workers=4)
+        paths = [p for p in allp if p[1] == 3]
+        paths4 = [p for p in allp if p[1] == 2]
+    else:
+        paths, r = tlc_paths('DFECacheMC_paths.cfg', workers=4)
+        paths4, _ = tlc_paths('DFECacheMC_paths4.cfg', workers=2)
     info['paths_2x3_enumerated'] = len(paths)
     info['paths_states'] = r.states
     by_fail = {}
@@ -385,22 +392,17 @@ def schedule_jobs(ctx):
     for k, p in enumerate(sel):
         jobs.append(('sch-a%06d' % k, '1D', p[0], p[1], p[2], p[3], p[4], p[5], 0, 'tlc-all-paths'))
     info['paths_2x3_replayed'] = len(sel)
-    # (2) the small configurations exhaustively (1-2 workers x 2 jobs): includes the one-worker pool
-    paths4, r4 = tlc_paths('DFECacheMC_paths4.cfg', workers=2)
     if ctx.quick:
         paths4 = [p for p in paths4 if p[0] == 1] + rng.sample([p for p in paths4 if p[0] == 2], 250)
     for k, p in enumerate(paths4):
         jobs.append(('sch-b%06d' % k, '1D', p[0], p[1], p[2], p[3], p[4], p[5], 0, 'tlc-all-paths'))
     info['paths_small_replayed'] = len(paths4)
-    # (3) simulated schedules: 2-D cache in split pieces (PathSet 2), 3 workers (PathSet 3)
-    n2 = 150 if ctx.quick else 1500
-    p2, _ = tlc_paths('DFECacheMC_paths2.cfg', simulate='num=%d' % n2, seed=ctx.seed % 100000 + 2)
-    for k, p in enumerate(p2):
-        jobs.append(('sch-c%06d' % k, '2D', p[0], p[1], p[2], p[3], p[4], p[5], 0, 'tlc-simulate'))
-    p3, _ = tlc_paths('DFECacheMC_paths3.cfg', simulate='num=%d' % n2, seed=ctx.seed % 100000 + 3)
-    for k, p in enumerate(p3):
-        jobs.append(('sch-d%06d' % k, '1D' if p[2] == 1 else '2D', p[0], p[1], p[2], p[3], p[4], p[5], 0, 'tlc-simulate'))
-    info['paths_simulated'] = len(p2) + len(p3)
+    # (3) simulated schedules: 2-D cache in split pieces with 2 and 3 workers, 3 workers x 4 jobs (PathSet 6 = 2 + 3)
+    n2 = 300 if ctx.quick else 3000
+    p23, _ = tlc_paths('DFECacheMC_paths6.cfg', simulate='num=%d' % n2, seed=ctx.seed % 100000 + 2)
+    for k, p in enumerate(p23):
+        jobs.append(('sch-c%06d' % k, '1D' if p[2] == 1 else '2D', p[0], p[1], p[2], p[3], p[4], p[5], 0, 'tlc-simulate'))
+    info['paths_simulated'] = len(p23)
     # (4) code -> spec: seeded random schedules (the scheduler picks among the actors enabled in the real code)
     nr = 150 if ctx.quick else 2500
     for k in range(nr):
@@ -414,7 +416,27 @@ def schedule_jobs(ctx):
             this = rng.randrange(split)
         fail = sorted(rng.sample(range(nj), rng.choice([0, 0, 1, 1, 2]) if nj >= 2 else rng.choice([0, 1])))
         jobs.append(('sch-r%06d' % k, kind, nw, nj, split, this, fail, None, ctx.seed * 1000 + k, 'random'))
+    # deterministic part: a worker raising on every single job (and on all jobs), 1..4, 8 and 16 workers, more
+    # workers than jobs, 2-D pieces failing on an own / a foreign job
+    fixed = []
+    for nj in (3, 5):
+        for fl in [[j] for j in range(nj)] + [list(range(nj))]:
+            fixed.append(('1D', 2 if len(fl) == 1 and fl[0] % 2 == 0 else 3, nj, 1, 0, fl))
+    for nw in (1, 2, 3, 4, 8, 16):
+        fixed.append(('1D', nw, 3, 1, 0, []))
+        fixed.append(('1D', nw, 4, 1, 0, [nw % 4]))
+    for j in range(4):
+        fixed.append(('2D', 2, 4, 1, 0, [j]))
+    for split in range(1, 7):
+        for this in range(split):
+            own = [j for j in range(9) if j % split == this]
+            fixed.append(('2D', 2 + (split + this) % 2, 9, split, this, [own[len(own) // 2]] if (split + this) % 2 else []))
+    fixed.append(('2D', 2, 9, 3, 1, [0, 2]))          # failing jobs that belong to other pieces
+    fixed.append(('2D', 2, 4, 6, 5, []))              # a piece that owns no job
+    for k, (kind, nw, nj, split, this, fl) in enumerate(fixed):
+        jobs.append(('sch-f%06d' % k, kind, nw, nj, split, this, fl, None, ctx.seed * 1000 + 500000 + k, 'random-fixed-config'))
     info['random_schedules'] = nr
+    info['fixed_config_schedules'] = len(fixed)
     return jobs, info
 
 
@@ -502,30 +524,61 @@ def mp_record(rid, lay, cpus):
 
 
 def mp_records(ctx):
+    """Real runs of the constructors.  Deterministic in BOTH tiers: worker counts 1, 2, 3, 4, 8, 16, every
+    split_jobs 1..6 with every this_job_id, a failure on every single job (first, interior, last negative
+    gamma, the additional positive gamma), a failure on every job, failures outside the own piece, pieces that
+    own no job at all.  Thorough adds every worker count 1..16 and every (cpus, split, piece) combination."""
     recs = []
     rng = random.Random(ctx.seed + 171)
     nid = itertools.count()
-    cpus_l = [1, 2, 3, 4] if ctx.quick else [1, 2, 3, 4, 8, 16]
-    splits = [1, 2, 3] if ctx.quick else [1, 2, 3, 4, 5, 6]
-    for cpus in cpus_l:
-        for nj in ([4] if ctx.quick else [3, 6]):
-            recs.append(mp_record('mp-%d' % next(nid), Layout('1D', nj), cpus)[0])
-        recs.append(mp_record('mp-%d' % next(nid), Layout('1D', 4, fail=[rng.randrange(4)]), cpus)[0])
+
+    def run(lay, cpus):
+        rec, cache = mp_record('mp-%d' % next(nid), lay, cpus)
+        recs.append(rec)
+        return cache
+    cpus_q = [1, 2, 3, 4, 8, 16]
+    # 1-D: each worker count; more workers than jobs; a single job
+    for cpus in (cpus_q if ctx.quick else range(1, 17)):
+        run(Layout('1D', 4), cpus)
+    run(Layout('1D', 1), 2)
+    run(Layout('1D', 2), 4)
+    if not ctx.quick:
+        for cpus in cpus_q:
+            run(Layout('1D', 7), cpus)
+    # workers raising on any gamma: every single job, all jobs; single-process and pool
+    for j in range(4):
+        run(Layout('1D', 4, fail=[j]), 2 if j % 2 == 0 else 3)
+    run(Layout('1D', 4, fail=[0]), 1)
+    run(Layout('1D', 4, fail=[3]), 1)
+    run(Layout('1D', 4, fail=[0, 1, 2, 3]), 2)
+    run(Layout('1D', 4, fail=[1, 3]), 16)
+    if not ctx.quick:
+        for cpus in cpus_q:
+            run(Layout('1D', 5, fail=[rng.randrange(5)]), cpus)
+    # 2-D: every split_jobs 1..6, every piece
     pieces = {}      # (nj, split, this) -> cache object
     for nj in ([9] if ctx.quick else [9, 16]):
-        for split in splits:
+        for split in range(1, 7):
             for this in range(split):
-                cpus = cpus_l[(split + this) % len(cpus_l)] if ctx.quick else None
-                for cp in ([cpus] if ctx.quick else (cpus_l if nj == 9 else [rng.choice(cpus_l)])):
-                    rec, cache = mp_record('mp-%d' % next(nid), Layout('2D', nj, split, this), cp)
-                    recs.append(rec)
+                if ctx.quick or nj != 9:
+                    cl = [cpus_q[(split + this) % len(cpus_q)]]
+                else:
+                    cl = cpus_q
+                for cp in cl:
+                    cache = run(Layout('2D', nj, split, this), cp)
                     if cache is not None:
                         pieces[(nj, split, this)] = cache
-        for cpus in cpus_l[:3]:
-            lay = Layout('2D', nj, 2, 1, fail=[1, rng.randrange(nj)])
-            recs.append(mp_record('mp-%d' % next(nid), lay, cpus)[0])
-            lay = Layout('2D', nj, 2, 0, fail=[1])            # job 1 is not in piece 0: no failure expected
-            recs.append(mp_record('mp-%d' % next(nid), lay, cpus)[0])
+        for k, cpus in enumerate([1, 2, 3]):
+            own = [j for j in range(nj) if j % 2 == 1]
+            run(Layout('2D', nj, 2, 1, fail=[own[0], own[-1]] if k == 0 else [rng.choice(own)]), cpus)
+            run(Layout('2D', nj, 2, 0, fail=[1]), cpus)            # job 1 is not in piece 0: no failure expected
+    for j in range(4):                                             # every single job of a 2x2 cache
+        run(Layout('2D', 4, fail=[j]), 2)
+    # more pieces than jobs: pieces 4 and 5 of split_jobs=6 own nothing in a 4-job cache
+    for this in range(6):
+        cache = run(Layout('2D', 4, 6, this), 2 if this % 2 else 1)
+        if cache is not None:
+            pieces[(4, 6, this)] = cache
     return recs, pieces
 
 
@@ -548,6 +601,18 @@ def merge_records(ctx, pieces):
             alt[split] = (this, Layout('2D', nj, split, this).build(1, func=model_2d_alt))
         for split in splits:
             if split == 1:
+                # a complete, unsplit cache merged alone and with itself
+                for case in ([('p', 0)], [('p', 0), ('p', 0)]):
+                    objs = [pieces[(nj, 1, 0)] for _ in case]
+                    tabs = [lay0.table(o) for o in objs]
+                    try:
+                        m = DFE.Cache2D.merge(objs)
+                        out = {'raised': 'none', 'table': lay0.table(m)}
+                    except Exception as e:
+                        out = {'raised': type(e).__name__, 'table': []}
+                    recs.append({'id': 'mg-%d' % next(nid), 'op': 'merge', 'site': 'Cache2D.merge',
+                                 'in': {'nj': nj, 'split': 1, 'case': ['%s%d' % c for c in case], 'pieces': tabs, 'F': F},
+                                 'out': out})
                 continue
             ids = list(range(split))
             cases = []
@@ -569,6 +634,12 @@ def merge_records(ctx, pieces):
             mid = full[:]
             mid.insert(len(mid) // 2, ('a', ta))
             cases.append(mid)
+            if split <= 3:
+                # every multiset of pieces with multiplicities 0..2 (every subset of missing AND duplicated pieces)
+                for mult in itertools.product([0, 1, 2], repeat=split):
+                    if sum(mult) == 0 or max(mult) < 2:
+                        continue
+                    cases.append([('p', t) for t in ids for _ in range(mult[t])])
             for case in cases:
                 objs = [pieces[(nj, split, t)] if kind == 'p' else alt[split][1] for kind, t in case]
                 tabs = [lay0.table(o) for o in objs]
@@ -892,8 +963,8 @@ def quad_records(ctx):
         lo, hi = grid or rng.choice(GRIDS)
         return small_cache2(n or rng.randint(4, 6), lo, hi, blind=blind, extra=(2.5, 0.75))
 
-    N1 = 60 if ctx.quick else 500
-    N2 = 22 if ctx.quick else 200
+    N1 = 40 if ctx.quick else 500
+    N2 = 14 if ctx.quick else 200
     # ---------------- 1-D ----------------
     for k in range(N1):
         c = newc1(blind=(k % 6 == 0))
@@ -1164,9 +1235,141 @@ def quad_records(ctx):
                                            'pdf2': spec, 'p2d': rat(p2d)},
                 obs(lambda: DFE.mixture(list(shared) + [tail, p2d], None, c1, c, pdf1, pdf, theta, None, exterior_int=True)),
                 cls=name + '/asym-lowprobe')
+    # ---------------- fixed records: every named density / option / boundary value, in both tiers ----------------
+    rng3 = random.Random(ctx.seed + 1718)
+
+    def pp2_in(c, spec, theta, rho, p1, g1, p2, g2):
+        gl = list(c.gammas)
+        n = len(c.neg_gammas)
+        i1, i2 = gl.index(g1), gl.index(g2)
+        return {'theta': rat(theta), 'c2': enc_c2(c), 'pdf2': spec, 'rho': rat(rho), 'p1': rat(p1), 'p2': rat(p2),
+                'sq': rat(math.sqrt(p1 * p2)), 'pospos': rats(np.asarray(c.spectra[i1][i2]).ravel()),
+                'spn': [rats(np.asarray(c.spectra[i1][j]).ravel()) for j in range(n)],
+                'snp': [rats(np.asarray(c.spectra[i][i2]).ravel()) for i in range(n)]}
+    FIX1 = [('exponential', [2.0]), ('gamma', [0.8, 3.0]), ('lognormal', [0.5, 1.0]), ('beta', [2.0, 3.0])]
+    # each shipped 1-D density with and without the exterior terms; parameters as list / tuple / array
+    for k, (name, p) in enumerate(FIX1):
+        for ext in (True, False):
+            c = small_cache1(5 + k % 2, 0.125, 4.0, extra=(2.5, 0.75))
+            pv = [list(p), tuple(p), np.array(p)][(k + ext) % 3]
+            theta = THETAS[(2 * k + ext) % len(THETAS)]
+            add('integrate1d', 'Cache1D.integrate', {'theta': rat(theta), 'ext': ext, 'c1': enc_c1(c), 'pdf1': tab1(name, p, c.neg_gammas)},
+                obs(lambda: c.integrate(pv, None, getattr(PDFs, name), theta, None, exterior_int=ext)), cls=name + '/fixed')
+    # grids: a single gamma, two gammas, no additional gammas; theta = 0, theta as Python int
+    for n, extra, theta, name in [(1, (2.5,), 2.5, 'fam'), (1, (), 1.0, 'exponential'), (2, (2.5,), 1000.0, 'fam'), (2, (), 2.5, 'lognormal'),
+                                  (3, (), 0.375, 'gamma'), (8, (2.5, 0.75), 0, 'fam'), (4, (2.5,), 1, 'fam'), (5, (), 3, 'beta')]:
+        c = small_cache1(n, 0.25, 8.0, extra=extra)
+        if name == 'fam':
+            fam = Fam([('pl', [0.5, 0.25, 1.0, 0.125, 0.75, 0.5, 0.25, 1.5][:n]), ('invsq', [0.5])], c.neg_gammas)
+            pdf, p, spec = fam.pdf1, [0.5, 1.25], fam.spec1([0.5, 1.25])
+        else:
+            p = dict(FIX1)[name]
+            pdf, spec = getattr(PDFs, name), tab1(name, p, c.neg_gammas)
+        add('integrate1d', 'Cache1D.integrate', {'theta': rat(theta), 'ext': True, 'c1': enc_c1(c), 'pdf1': spec},
+            obs(lambda: c.integrate(p, None, pdf, theta, None)), cls=name + '/grid%d' % n)
+    # point masses: proportion 0, proportion 1, two masses summing to 1, uncached, additional gamma given as int
+    for k, (props, gpos, extra, use_func) in enumerate([([0.0], [2.5], (2.5, 0.75), False), ([1.0], [0.75], (2.5, 0.75), False),
+                                                        ([0.5, 0.5], [2.5, 0.75], (2.5, 0.75), True), ([0.25], [1.5], (2.5,), True),
+                                                        ([0.125], [2], (2, 0.75), False), ([0.25, 0.125], [3.25, 1.5], (), True)]):
+        c = small_cache1(4 + k % 3, 0.125, 4.0, extra=extra)
+        name, p = FIX1[k % 4]
+        theta = [2.5, 1000.0, 0.375, 1, 12345.678, 2.5][k]
+        pp = []
+        for pr, g in zip(props, gpos):
+            if g in list(c.gammas):
+                S = np.asarray(c.spectra[list(c.gammas).index(g)]).ravel()
+            else:
+                S = np.asarray(dadi.Numerics.make_extrap_func(model_1d)(tuple(c.params) + (g,), c.ns, c.pts).data).ravel()
+            pp.append({'p': rat(pr), 'S': rats(S), 'gamma': rat(g)})
+        params = list(p) + [v for pr, g in zip(props, gpos) for v in (pr, g)]
+        func = model_1d if use_func else None
+        npos = len(props)
+        add('pointpos1d', 'Cache1D.integrate_point_pos',
+            {'theta': rat(theta), 'ext': True, 'c1': enc_c1(c), 'pdf1': tab1(name, p, c.neg_gammas), 'pp': pp, 'mode': 'fixed'},
+            obs(lambda: c.integrate_point_pos(params, None, getattr(PDFs, name), theta, func, npos)), cls=name + '/fixed-pp%d' % k)
+    # each shipped 2-D density: parameter counts, rho at both ends of (-1,1) and 0, with and without exterior terms
+    FIX2 = [('biv_lognormal', [0.3, 0.8, -0.9], True), ('biv_lognormal', [0.3, 0.8, 0.0], True), ('biv_lognormal', [0.3, 0.8, 0.9], True),
+            ('biv_lognormal', [0.2, 0.9, 0.7, 1.0, -0.5], True), ('biv_lognormal', [0.2, 0.9, 0.7, 1.0, 0.6], False),
+            ('biv_ind_gamma', [1.5, 1.2], True), ('biv_ind_gamma', [1.5, 1.2, 0.3], True), ('biv_ind_gamma', [0.9, 2.0, 1.5, 0.8], True),
+            ('biv_ind_gamma', [0.9, 2.0, 1.5, 0.8, -0.4], True), ('biv_ind_gamma', [1.5, 1.2], False)]
+    if not ctx.quick:
+        FIX2 += [('biv_lognormal', [0.3, 0.8, r], True) for r in (-0.97, -0.6, 0.3, 0.97)]
+    for k, (name, p, ext) in enumerate(FIX2):
+        c = small_cache2(4, 0.25, 8.0, blind=(k == 1), extra=(2.5, 0.75))
+        theta = THETAS[k % len(THETAS)]
+        pv = [list(p), tuple(p), np.array(p)][k % 3]
+        add('integrate2d', 'Cache2D.integrate', {'theta': rat(theta), 'ext': ext, 'c2': enc_c2(c), 'pdf2': tab2(name, p, c.neg_gammas)},
+            obs(lambda: c.integrate(pv, None, getattr(PDFs, name), theta, None, exterior_int=ext)), cls=name + '/fixed%d' % len(p))
+    # 2-D grids of one and two gammas
+    for n, extra in [(1, (2.5,)), (2, ()), (2, (0.75,))]:
+        c = small_cache2(n, 0.25, 8.0, extra=extra)
+        fam = Fam([(('pl', [0.5, 0.25][:n]), ('invsq', [0.5])), (('invsq', [1.0]), ('pl', [0.125, 1.0][:n]))], c.neg_gammas)
+        add('integrate2d', 'Cache2D.integrate', {'theta': rat(2.5), 'ext': True, 'c2': enc_c2(c), 'pdf2': fam.spec2([0.5, 1.25])},
+            obs(lambda: c.integrate([0.5, 1.25], None, fam.pdf2, 2.5, None)), cls='fam/grid%d' % n)
+    # point masses in two populations: linking rho 0 and 1, proportion 0 and 1, equal and different positive gammas
+    for k, (rho, p1, g1, p2, g2) in enumerate([(0.0, 0.25, 2.5, 0.0625, 0.75), (1.0, 0.25, 0.75, 0.0625, 2.5), (0.5, 0.0, 2.5, 0.25, 2.5),
+                                               (0.5, 1.0, 0.75, 1.0, 0.75), (0.25, 0.25, 2.5, 0.25, 2.5), (1.0, 0.0, 2.5, 0.0, 0.75)]):
+        c = small_cache2(4, 0.125, 4.0, extra=(2.5, 0.75))
+        if k % 3 == 2:
+            name, p = 'biv_ind_gamma', [0.9, 2.0, 1.5, 0.8]
+            pdf, spec = PDFs.biv_ind_gamma, tab2(name, p, c.neg_gammas)
+        else:
+            fam = Fam([(('pl', [0.5, 0.25, 1.0, 0.125]), ('invsq', [0.5]))], c.neg_gammas)
+            name, p, pdf, spec = 'fam', [1.25], fam.pdf2, fam.spec2([1.25])
+        theta = THETAS[(k + 1) % len(THETAS)]
+        params = list(p) + [p1, g1, p2, g2]
+        add('pointpos2d', 'Cache2D.integrate_point_pos', pp2_in(c, spec, theta, rho, p1, g1, p2, g2),
+            obs(lambda: c.integrate_point_pos(params, None, pdf, theta, rho=rho)), cls=name + '/fixed-pp%d' % k)
+    for k, (rho, pp_, gp) in enumerate([(0.5, 0.125, 2.5), (-0.5, 0.25, 0.75), (0.0, 0.0, 2.5)]):
+        # symmetric variant: rho is the last parameter of the (3-parameter) bivariate lognormal and links the quadrants
+        c = small_cache2(4, 0.25, 8.0, extra=(2.5, 0.75))
+        p = [0.3, 0.8, rho]
+        theta = THETAS[k]
+        add('pointpos2d', 'Cache2D.integrate_symmetric_point_pos', pp2_in(c, tab2('biv_lognormal', p, c.neg_gammas), theta, rho, pp_, gp, pp_, gp),
+            obs(lambda: c.integrate_symmetric_point_pos(p + [pp_, gp], None, PDFs.biv_lognormal, theta)), cls='biv_lognormal/fixed-sym%d' % k)
+    # mixtures: p2d = 0, 1, interior; with and without exterior terms; all three functions with shipped densities
+    for k, (fn, p2d, ext) in enumerate([('mixture', 0.0, True), ('mixture', 1.0, True), ('mixture', 0.25, False),
+                                        ('sym', 0.5, True), ('sym', 0.0, True), ('pp', 0.5, True), ('pp', 1.0, True)]):
+        c1 = small_cache1(4, 0.25, 8.0, extra=(2.5, 0.75), pair=True)
+        c2 = small_cache2(4, 0.25, 8.0, extra=(2.5, 0.75))
+        mu, sg, rho = 0.3, 0.8, [0.4, -0.3, 0.0][k % 3]
+        theta = THETAS[k % len(THETAS)]
+        base = {'theta': rat(theta), 'ext': ext, 'c1': enc_c1(c1), 'pdf1': tab1('lognormal', [mu, sg], c1.neg_gammas), 'c2': enc_c2(c2),
+                'pdf2': tab2('biv_lognormal', [mu, sg, rho], c2.neg_gammas), 'p2d': rat(p2d)}
+        if fn == 'mixture':
+            add('mixture', 'DFE.mixture', base,
+                obs(lambda: DFE.mixture([mu, sg, rho, p2d], None, c1, c2, PDFs.lognormal, PDFs.biv_lognormal, theta, None, exterior_int=ext)),
+                cls='lognormal/fixed')
+            continue
+        if fn == 'sym':
+            p1 = p2 = 0.125
+            g1 = g2 = 2.5
+            site = 'DFE.mixture_symmetric_point_pos'
+            call = lambda: DFE.mixture_symmetric_point_pos([mu, sg, rho, p1, g1, p2d], None, c1, c2, PDFs.lognormal, PDFs.biv_lognormal, theta)
+        else:
+            p1, g1, p2, g2 = 0.25, 0.75, 0.0625, 2.5
+            site = 'DFE.mixture_point_pos'
+            call = lambda: Cache2D_mod.mixture_point_pos([mu, sg, rho, p1, g1, p2, g2, p2d], None, c1, c2, PDFs.lognormal, PDFs.biv_lognormal, theta)
+        base.update(pp2_in(c2, base['pdf2'], theta, rho, p1, g1, p2, g2))
+        base['pp'] = [{'p': rat(p1), 'S': rats(np.asarray(c1.spectra[list(c1.gammas).index(g1)]).ravel()), 'gamma': rat(g1)}]
+        add('mixture_pp', site, base, obs(call), cls='lognormal/fixed')
+    # Vourlaki mixture at the corners of its weight cube
+    for k, (pw, pc, pcp) in enumerate([(0.0, 0.0, 0.0), (1.0, 0.0, 0.0), (0.0, 1.0, 0.0), (0.0, 1.0, 1.0), (1.0, 1.0, 1.0), (1.0, 1.0, 0.0)]):
+        c1 = small_cache1(4, 0.25, 8.0, blind=(k == 0), extra=(2.5, 0.75), pair=True)
+        c2 = small_cache2(4, 0.25, 8.0, blind=(k == 0), extra=(2.5, 0.75))
+        al, be, gp = 1.5, 1.2, [2.5, 0.75][k % 2]
+        theta = THETAS[k % len(THETAS)]
+        ip = list(c2.gammas).index(gp)
+        add('vourlaki', 'DFE.Vourlaki_mixture',
+            {'theta': rat(theta), 'c1': enc_c1(c1), 'c2': enc_c2(c2), 'pdf1': tab1('gamma', [al, be], c1.neg_gammas),
+             'pdf2': tab2('biv_ind_gamma', [al, be], c2.neg_gammas), 'pw': rat(pw), 'pc': rat(pc), 'pcp': rat(pcp),
+             'pospos': rats(np.asarray(c2.spectra[ip][ip]).ravel()),
+             'spn': [rats(np.asarray(c2.spectra[ip][j]).ravel()) for j in range(4)],
+             'snp': [rats(np.asarray(c2.spectra[i][ip]).ravel()) for i in range(4)]},
+            obs(lambda: DFE.Vourlaki_mixture([al, be, pw, gp, pc, pcp], None, c1, c2, theta, None)), cls='fixed-corner%d' % k)
     stats['t_2d'] = round(time.time() - t0, 1)
     # ---------------- compiled bivariate densities ----------------
-    NP = 250 if ctx.quick else 3000
+    NP = 150 if ctx.quick else 3000
     for k in range(NP):
         name = rng.choice(['biv_lognormal', 'biv_ind_gamma'])
         nx, ny = rng.choice([1, 1, 2, 3, 5]), rng.choice([1, 2, 3, 4])
@@ -1219,6 +1422,72 @@ def quad_records(ctx):
             out = {'raised': type(e).__name__}
         add('pdf2d', 'PDFs.' + name + ('(strided)' if layout == 'strided' else ''),
             {'name': name, 'x': rats(xs), 'y': rats(ys), 'params': rats(p), 'layout': layout, 'ref': rats(ref)}, out, cls=layout)
+    # fixed compiled-density records: rho at both ends of (-1,1), every parameter count, Lanczos reflection branch
+    # (alpha < 0.5), every argument layout / dtype
+    X0, Y0 = [0.01, 0.75, 3.0, 40.0, 900.0], [0.002, 1.0, 7.5, 250.0]
+    PF = [('biv_lognormal', [1.0, 1.5, r]) for r in (-0.999, -0.99, -0.5, 0.0, 0.5, 0.99, 0.999)] + \
+         [('biv_lognormal', [1.0, -0.5, 1.5, 0.6, r]) for r in (-0.999, 0.0, 0.999)] + \
+         [('biv_ind_gamma', [a, 3.0]) for a in (0.05, 0.3, 0.5, 1.0, 2.5, 6.0, 40.0)] + \
+         [('biv_ind_gamma', [0.3, 3.0, 0.7]), ('biv_ind_gamma', [0.3, 2.5, 3.0, 0.4]), ('biv_ind_gamma', [0.3, 2.5, 3.0, 0.4, -0.2])]
+    LAYOUTS = ['list', 'tuple', 'array', 'strided', 'reversed', 'scalar', 'pyint', 'intarray', 'float32', 'params-tuple', 'params-array', 'params-strided']
+    fixed_pdf = [(nm, pr, LAYOUTS[k % len(LAYOUTS)]) for k, (nm, pr) in enumerate(PF)]
+    fixed_pdf += [(nm, pr, lay) for nm, pr in (PF[2], PF[8], PF[11], PF[18]) for lay in LAYOUTS]
+    for name, p, layout in fixed_pdf:
+        xs, ys = list(X0), list(Y0)
+        pv = list(p)
+        if layout == 'scalar':
+            xs, ys = xs[2:3], ys[1:2]
+            ax, ay = xs[0], ys[0]
+        elif layout == 'pyint':
+            xs, ys = [3.0], [7.0]
+            ax, ay = 3, 7
+        elif layout == 'intarray':
+            xs, ys = [1.0, 3.0, 40.0], [2.0, 7.0]
+            ax, ay = np.array([1, 3, 40]), [2, 7]
+        elif layout == 'float32':
+            ax, ay = np.array(xs, dtype=np.float32), np.array(ys, dtype=np.float32)
+            xs, ys = [float(v) for v in ax], [float(v) for v in ay]
+        elif layout == 'strided':
+            bx = np.full(3 * len(xs), 7.0)
+            bx[::3] = xs
+            by = np.full(2 * len(ys), 0.5)
+            by[::2] = ys
+            ax, ay = bx[::3], by[::2]
+        elif layout == 'reversed':
+            ax, ay = np.array(xs[::-1])[::-1], np.array(ys[::-1])[::-1]
+        elif layout == 'tuple':
+            ax, ay = tuple(xs), tuple(ys)
+        elif layout == 'list':
+            ax, ay = list(xs), list(ys)
+        else:
+            ax, ay = np.array(xs), np.array(ys)
+        if layout == 'params-tuple':
+            pv = tuple(p)
+        elif layout == 'params-array':
+            pv = np.array(p)
+        elif layout == 'params-strided':
+            bp = np.full(2 * len(p), 9.0)
+            bp[::2] = p
+            pv = bp[::2]
+        if name == 'biv_lognormal':
+            ref = [ref_biv_lognormal(p, x, y) for x in xs for y in ys]
+            pyf = PDFs.biv_lognormal_py
+        else:
+            ref = [ref_biv_ind_gamma(p, x, y) for x in xs for y in ys]
+            pyf = PDFs.biv_ind_gamma_py
+        f = getattr(PDFs, name)
+        try:
+            import warnings
+            with warnings.catch_warnings():
+                warnings.simplefilter('ignore')
+                cv = np.atleast_1d(np.asarray(f(ax, ay, pv), dtype=float)).ravel()
+                pyv = np.atleast_1d(np.asarray(pyf(np.asarray(ax, dtype=float), np.asarray(ay, dtype=float), list(p)), dtype=float)).ravel()
+            out = {'c': rats(cv), 'py': rats(pyv)}
+        except Exception as e:
+            out = {'raised': type(e).__name__, 'msg': str(e)[:120]}
+        strided = layout in ('strided', 'reversed', 'params-strided')
+        add('pdf2d', 'PDFs.' + name + ('(strided)' if strided else ''),
+            {'name': name, 'x': rats(xs), 'y': rats(ys), 'params': rats(p), 'layout': layout, 'ref': rats(ref)}, out, cls='fixed/' + layout)
     return recs, stats
 
 
